@@ -72,8 +72,8 @@ let run inp obs : string option * string option =
           let size = zs d.size in
           let isz = int_of_string d.size in
           match d.kind with
-          | 'm' | 'g' ->
-            let valid = d.kind = 'm' && m_valid codec isz || (d.kind = 'g' && (codec = "body" || (codec = "proto" && isz = 0) || (codec = "json" && isz = 2))) in
+          | 'm' | 'g' | 'z' ->
+            let valid = (d.kind = 'm' || d.kind = 'z') && m_valid codec isz || (d.kind = 'g' && (codec = "body" || (codec = "proto" && isz = 0) || (codec = "json" && isz = 2))) in
             if gzf then
               let c = next_c () in
               ({ SizeLimit.s_size = size; s_wire = c; s_ok = valid },
